@@ -94,7 +94,7 @@ def run(ctx):
                 line = f"COMBOS {len(order)} " + " ".join(str(idx[o]) for o in order) + f" {len(lists)} " + " ".join(
                     f"{idx[k]} {len(vs)} " + " ".join(str(i) for i in range(len(vs))) for k, vs in lists.items())
                 req_lines.append(line)
-                req_meta.append((";".join(",".join(f"{idx[k]}={i}" for k, i in c) for c, *_ in res), call))
+                req_meta.append((";".join(",".join(f"{a}={b}" for a, b in sorted((idx[k], i) for k, i in c)) for c, *_ in res), call, "combos"))
             # get_best_param_order vs the insertion-loop model, on the real index of a fast object
             a = fw(**FAST[cn])
             for q in qs:
@@ -103,7 +103,7 @@ def run(ctx):
             names = list(papr)
             req_lines.append(f"ORDER {len(names)} " + " ".join(f"{i} {len(papr[n])}" for i, n in enumerate(names)))
             real_order = get_best_param_order(fw, qs, **FAST[cn])
-            req_meta.append((" ".join(str(names.index(n)) for n in real_order), dict(call, what="get_best_param_order")))
+            req_meta.append((" ".join(str(names.index(n)) for n in real_order), dict(call, what="get_best_param_order"), "order"))
             if sorted(real_order) != sorted(names):
                 viol("order-not-permutation", f"get_best_param_order is not a permutation of all parameters", call)
             nums = [len(papr[n]) for n in real_order]
@@ -113,7 +113,10 @@ def run(ctx):
                 samples.append({"call": call, "n_results": len(res), "labels": labels[:3]})
     ans = lean_driver(req_lines)
     nbad = 0
-    for (exp, call), got in zip(req_meta, ans):
+    for (exp, call, kind), got in zip(req_meta, ans):
+        if kind == "combos":
+            # the order of (key,value) pairs inside one combination is not observable: compare the sequence of combinations
+            got = ";".join(",".join(f"{a}={b}" for a, b in sorted(tuple(map(int, kv.split("="))) for kv in c.split(","))) for c in got.split(";"))
         if exp != got:
             nbad += 1
             if nbad == 1:
